@@ -195,6 +195,11 @@ Theorem C20_link_free_copy_is_fs_put : forall fuel src dst f c, entry_eqb src ds
   U20L.copy_replace fuel src dst (U20L.erase f) = Some (U20L.erase (fs_put dst c f)) /\
   U20L.copy_through fuel src dst (U20L.erase f) = Some (U20L.erase (fs_put dst c f)).
 Proof. exact U20L.link_free_copy. Qed.
+(* a move renames NAMES: a run of moves out of dir into dest, succeeding or failing half way, touches no name of any other
+   directory - a link among the moved files is moved as the link it is, what it points at stays *)
+Theorem C20_move_stays_in_the_two_directories : forall dir dest names f e,
+  str_eqb (fst e) dest = false -> str_eqb (fst e) dir = false -> U20L.lget e (fst (U20L.moves dir dest names f)) = U20L.lget e f.
+Proof. exact U20L.moves_stay_in_the_two_directories. Qed.
 Example C20_written_through_before_the_repair : exists f',
   U20L.copy_through 40 (GS.s "upload", GS.s "foo_1.0.tar.gz") (GS.s "incoming", GS.s "foo_1.0.tar.gz") U20L.ex_fs = Some f' /\
   U20L.lget (GS.s "outside", GS.s "precious") f' = Some (U20L.File (GS.s "payload")) /\
@@ -204,3 +209,4 @@ Print Assumptions C20_copy_does_not_write_through_links.
 Print Assumptions C20_copy_replaces_the_name.
 Print Assumptions C20_copy_delivers_what_the_source_denotes.
 Print Assumptions C20_link_free_copy_is_fs_put.
+Print Assumptions C20_move_stays_in_the_two_directories.
